@@ -1,13 +1,15 @@
 package main
 
 import (
+	"math"
 	"fmt"
 	"strings"
 
 	"github.com/weedbox/pokerface"
 )
 
-var amountsMalformed = []int64{-1 << 40, -1000, -5, -1, 0, 1, 2, 3, 1 << 40, 1 << 62}
+// from the int64 extremes (where a subtraction written before its guard wraps around) to small values
+var amountsMalformed = []int64{math.MinInt64, math.MinInt64 + 1, math.MinInt64 + 3, -1 << 40, -1000, -5, -1, 0, 1, 2, 3, 1 << 40, 1 << 62, math.MaxInt64 - 1, math.MaxInt64}
 
 func genStack(r *Rng, c *handCfg) int64 {
 	switch r.Intn(12) {
